@@ -13,7 +13,8 @@ W = [("w_wr_zero_total", "kf01-wr-zero-total"), ("w_rl_zero_period", "kf02-rl-ze
      ("w_policy_ref", "kf05-policy-ref"), ("w_fallback_nil_resp", "kf06-fallback-nil-response"),
      ("w_null_entry", "kf07-null-entry"), ("w_retry_jitter", "kf08-retry-jitter"),
      ("w_builder_template", "kf09-builder-template"), ("w_topic_index", "kf10-topic-index"),
-     ("w_flow_namespace", "kf11-flow-namespace"), ("w_stream_compress", "kf12-proxy-stream-compress")]
+     ("w_flow_namespace", "kf11-flow-namespace"), ("w_stream_compress", "kf12-proxy-stream-compress"),
+     ("w_mqtt_rules", "kf13-mqtt-rules")]
 out = ["(** C13 - refutation witnesses: the corpus cases corpus/C13/kf*.json with the oracle tables computed by the",
        "    real Go libraries when the harness executed them (tools/c13_mkwitness.py).  Data only. *)",
        "From EG.lib Require Import Base SchemaTy.", "From EG.model Require Import Schema SchemaCheck.", "Open Scope Z_scope.", ""]
